@@ -608,7 +608,8 @@ def trans_core(pid, plan, tier, replay_file=None, models=True):
         schedules.append({'name': 'closeerr:drop', 'cfg': dict(ccfg, Forms=['call', 'stream', 'call']), 'steps': G(1) + R(1) + [{'a': 'Drop', 'k': 1}] + G(1) + R(1) + G(1) + R(1) + G(1) + R(1)})
         if plan.get('bursts'):
             # concurrent callers racing for the pool (no gates): limits and their normalisation
-            for j, (mc, mi, raw) in enumerate([(2, 1, None), (1, 1, (0, 0)), (1, 1, (-1, 5)), (2, 2, (2, 5)), (3, 2, None), (1, 1, None), (3, 1, (3, -1)), (2, 1, (2, -3))]):
+            for j, (mc, mi, raw) in enumerate([(2, 1, None), (1, 1, (0, 0)), (1, 1, (-1, 5)), (2, 2, (2, 5)), (3, 2, None), (1, 1, None), (3, 1, (3, -1)), (2, 1, (2, -3)),
+                                          (1, 1, (0, 1)), (1, 1, (0, 2)), (1, 1, (0, 5)), (1, 1, (-1, 1)), (1, 1, (-3, 2))]):   # every order of the two normalisations
                 cfg = {'Addrs': ['a'], 'MaxConns': mc, 'MaxIdle': mi, 'KeepAlive': 1, 'IdleTO': 2, 'UnitMs': 6}
                 if raw:
                     cfg.update({'UseRaw': True, 'RawMaxConns': raw[0], 'RawMaxIdle': raw[1]})
@@ -723,6 +724,7 @@ CLI_PLANS = {
         'devs': [('rebuildchange', ['RebuildOnlyOnChange'], KC(addrs=ABC, upd=(('a', 'b', 'c'),), init=('a', 'b', 'c'), maxupd=0, flips=1, calls=3, fb=0, callers=(1,))),
                  ('lostwake', ['LostWakeup', 'DetectNoWake'], KC(upd=(('a', 'b'),), maxupd=0, flips=1, calls=2, fb=0), 'live'),
                  ('detectnowake', ['DetectNoWake'], KC(upd=(('a', 'b'),), maxupd=0, flips=0, calls=2, fb=1)),
+                 ('detectneedsprobe', ['DetectWakeNeedsProbe'], KC(upd=(('a', 'b'),), maxupd=0, flips=0, calls=2, fb=1)),
                  ('nowakeclose', ['NoWakeOnClose'], KC(upd=(('a', 'b'),), maxupd=0, flips=0, calls=2, fb=0)),
                  ('waitafterclose', ['WaitAfterClose'], KC(upd=(('a', 'b'),), maxupd=0, flips=0, calls=2, fb=0)),
                  ('timeoutleak', ['TimeoutLeaks'], KC(upd=(('a', 'b'),), maxupd=0, flips=0, calls=2, fb=0))],
@@ -904,9 +906,11 @@ STREAM_PLANS = {
         'devs': [('ackafter', ['AckAfterHandlerStart'], SC(streams=(1,), push=2, send=0, cut=False, close=False)),
                  ('flipcaller', ['FlipInCaller'], SC(streams=(1,), push=2, send=0, cut=False, close=False)),
                  ('dup', ['DupDeliver'], SC(streams=(1,), push=2, send=0, cut=False, close=False)),
-                 ('cross', ['CrossDeliver'], SC(streams=(1, 2), push=1, send=0, cut=False, close=False))],
-        'sims': [('s2', SC(streams=(1, 2), push=3, send=3)), ('s3', SC(streams=(1, 2, 3), push=2, send=2, cut=False)),
-                 ('s1', SC(streams=(1,), push=5, send=5, cut=False))],
+                 ('cross', ['CrossDeliver'], SC(streams=(1, 2), push=1, send=0, cut=False, close=False)),
+                 ('wfailroute', ['WriteFailDropsRoute'], SC(streams=(1,), push=1, send=0, bad=1, cut=False, close=False)),
+                 ('wfailroute2', ['WriteFailDropsRoute'], SC(streams=(1, 2), push=1, send=1, bad=1, cut=False, close=False))],
+        'sims': [('s2', SC(streams=(1, 2), push=3, send=3, bad=1)), ('s3', SC(streams=(1, 2, 3), push=2, send=2, cut=False)),
+                 ('s1', SC(streams=(1,), push=5, send=5, cut=False, bad=2))],
         'scenarios': stream_scenarios,
     },
     'C10': {
